@@ -197,6 +197,8 @@ Definition ctx_rem (c : ctx) (x y : dec) : res result :=
 Definition quantize_inner (c : ctx) (v : dec) (e : Z) : res (dec * cond) :=
   let diff := e - exp v in
   let d := v in
+  (* a zero has no digits to lose and needs no padding: only its exponent changes, no condition *)
+  if is_zero d then Ok (set_exp d e, c0) else
   if diff <? 0 then
     if diff <? MinExponent then Ok (d, sys_under) else
     do p <- table_exp10 (- diff);
